@@ -316,14 +316,17 @@ def run_replay(path, timeout=600):
         p.stdin.write(path + '\n')
         p.stdin.flush()
         import select
-        rl, _, _ = select.select([p.stdout], [], [], timeout)
-        if not rl:
-            p.kill()
-            return -9, 'replay timed out'
-        line = p.stdout.readline()
-        if not line:
-            return 70, 'replay server died'
-        d = json.loads(line)
+        while True:
+            rl, _, _ = select.select([p.stdout], [], [], timeout)
+            if not rl:
+                p.kill()
+                return -9, 'replay timed out'
+            line = p.stdout.readline()
+            if not line:
+                return 70, 'replay server died'
+            if line.startswith('@@REPLAY '):
+                break
+        d = json.loads(line[len('@@REPLAY '):])
         return d['code'], d['out']
     except (OSError, ValueError) as ex:
         return 70, 'replay server error: %s' % ex
